@@ -35,6 +35,7 @@ def parseOp? (w : List String) : Option Op :=
   | ["comment", t] => some (.comment t)
   | ["section", s] => (parseSec? s).map .section
   | ["cpool", l, z, b] => do some (.cpool (← parseLabel? l) (← z.toNat?) b)
+  | ["gconst", z, b] => do some (.gconst (← z.toNat?) b)
   | ["cursor", "-"] => some (.cursor none)
   | ["cursor", n] => n.toNat?.map fun k => .cursor (some k)
   | ["remove", n] => n.toNat?.map .remove
@@ -53,6 +54,7 @@ def renderCall : Call → String
   | .edelta l b s => s!"edelta L{l} L{b} {s}"
   | .comment t => s!"comment {t}"
   | .section s => s!"section S{s}"
+  | .cpoolnode l a b => s!"cpoolnode L{l} {a} {b}"
 
 def parseCall? (w : List String) : Option Call :=
   match w with
@@ -64,6 +66,7 @@ def parseCall? (w : List String) : Option Call :=
   | ["edelta", l, b, s] => do some (.edelta (← parseLabel? l) (← parseLabel? b) (← s.toNat?))
   | ["comment", t] => some (.comment t)
   | ["section", s] => (parseSec? s).map .section
+  | ["cpoolnode", l, a, b] => do some (.cpoolnode (← parseLabel? l) (← a.toNat?) b)
   | _ => none
 
 def renderRes : Res → String
@@ -115,16 +118,20 @@ def flag (d : DS) (why : String) : DS := if d.bad.isSome then d else { d with ba
 def stepLine (d : DS) (line : String) : DS × String :=
   let w := words line
   match w with
-  | "begin" :: arch :: _ =>
-    let m := St.init (regSizeOf arch)
-    ({ m := m, s := Spec.St.init (regSizeOf arch), live := true }, "R ok" ++ renderState m.l)
+  | "begin" :: arch :: em :: _ =>
+    let m := St.init (regSizeOf arch) (em == "compiler")
+    ({ m := m, s := Spec.St.init (regSizeOf arch) (em == "compiler"), live := true }, "R ok" ++ renderState m.l)
   | ["end"] => ({}, "R end")
   | ["finalize"] =>
-    let cl := (serialize d.m).map fun c => "C " ++ renderCall c
-    let sl := (Spec.linearize d.s).map fun c => "S " ++ renderCall c
-    (d, "\n".intercalate (cl ++ ["C end ok"] ++ sl ++ ["S end"]))
+    -- passes first (GlobalConstPoolPass), then what serialize_to issues
+    let m := runPasses d.m
+    let s := Spec.runPasses d.s
+    let cl := (serialize m).map fun c => "C " ++ renderCall c
+    let sl := (Spec.linearize s).map fun c => "S " ++ renderCall c
+    ({ d with m := m, s := s }, "\n".intercalate (["R ok" ++ renderState m.l] ++ cl ++ ["C end ok"] ++ sl ++ ["S end"]))
   -- monitor mode ------------------------------------------------------------------------------------------------
-  | "mbegin" :: arch :: _ => ({ s := Spec.St.init (regSizeOf arch), live := true }, "")
+  | "mbegin" :: arch :: em :: _ => ({ s := Spec.St.init (regSizeOf arch) (em == "compiler"), live := true }, "")
+  | ["mpasses"] => ({ d with s := Spec.runPasses d.s, lastRes := .ok }, "")
   | "mop" :: rest =>
     (match parseOp? rest with
      | some op => let (s', r) := Spec.step d.s op; ({ d with s := s', lastRes := r }, "")
